@@ -126,7 +126,10 @@ func verifC10NewStore(kinds []int, n int) {
 	}
 	ctx := &verifCtx{tag: "init", hasDeadline: nondetBool("ctx.hasDeadline"), deadlineNS: nondetMathI64("ctx.deadline"), cancelled: nondetBool("ctx.cancelled")}
 	cfg := StoreConfig{Client: client, Secrets: append([]string(nil), names...), // NewStore sorts and compacts this slice in place
-		AllowLookup: nondetBool("allowLookup"), PollInterval: -1, Logf: verifLogf, TimeNow: verifTimeNow}
+		AllowLookup: nondetBool("allowLookup"), PollInterval: -1, Logf: verifLogf, TimeNow: verifTimeNow,
+		ExpiryAge: time.Duration(nondetMathI64("expiryAge"))} // any expiry configuration, any clock, any access stamps in the cache
+	verifNowSec = nondetMathI64("now")
+	assume(and(verifNowSec >= 0, verifNowSec < 1<<40))
 	if cache != nil {
 		cfg.Cache = cache
 	}
